@@ -279,3 +279,11 @@ mod tests {
         assert_eq!(result.len(), 1);
     }
 }
+
+#[cfg(ishape_rust_itree_verif)]
+impl<R, E, V> SegExpTree<R, E, V> {
+    /// Read-only view of the bucket lists (verification hook).
+    pub(super) fn verif_chunks(&self) -> &[Chunk<E, V>] {
+        &self.chunks
+    }
+}
